@@ -316,6 +316,59 @@ HelperLaw(fn, sc, ret) ==
             sc.disposed \/ ret = (IF sc.possible THEN "false" ELSE "true")
        [] fn \in {"AskAdd", "AskRemove"} -> ret = (IF Applied(sc) THEN "applied" ELSE "canceled")
 
+(* Part 3a: the Sync helpers on state LISTS whose members differ.             *)
+(* The scenarios above name one state, so "all of them" and "any of them"     *)
+(* coincide.  Here the helper gets a list of 1..n distinct relation-less      *)
+(* states; every member i is described by                                     *)
+(*   lst[i].pre    it is active before the call                               *)
+(*   lst[i].veto   its negotiation handler (Enter for an add, Exit for a      *)
+(*                 remove) refuses                                            *)
+(* machine (transition.go): an add negotiates Enter only for members that are *)
+(* not active yet, a remove negotiates Exit only for members that are active; *)
+(* one refusal cancels the whole mutation, nothing changes.                   *)
+ListSc == [disposed : BOOLEAN, queued : BOOLEAN]
+ListMember == [pre : BOOLEAN, veto : BOOLEAN]
+ListFns == {"AddSync", "RemoveSync"}
+
+ListCalled(isAdd, e) == IF isAdd THEN ~e.pre ELSE e.pre
+ListAccepted(isAdd, sc, lst) ==
+  ~sc.disposed /\ \A i \in 1..Len(lst) : ~(ListCalled(isAdd, lst[i]) /\ lst[i].veto)
+(* machine.go EvRemove: a removal none of whose members is active, issued      *)
+(* while a transition runs and nothing else is queued, is answered Executed   *)
+(* at once -- no mutation is queued, no transition runs, a tracer sees none   *)
+ListSkipped(isAdd, sc, lst) ==
+  ~isAdd /\ sc.queued /\ ~sc.disposed /\ \A i \in 1..Len(lst) : ~lst[i].pre
+(* a tracer sees the helper's mutation end as an accepted transition          *)
+ListSeenAccepted(isAdd, sc, lst) == ListAccepted(isAdd, sc, lst) /\ ~ListSkipped(isAdd, sc, lst)
+(* activity of the members once the mutation is through                       *)
+ListAfter(isAdd, sc, lst) ==
+  [i \in 1..Len(lst) |-> IF ListAccepted(isAdd, sc, lst) THEN isAdd ELSE lst[i].pre]
+(* add: ALL members active (Is); remove: NONE of them active (Not)            *)
+ListHolds(isAdd, after) == \A i \in 1..Len(after) : after[i] = isAdd
+
+(* code (help.go EvAddSync / EvRemoveSync): Executed -> true, Canceled ->     *)
+(* false, a queue tick -> wait for it, then Is(states) / Not(states).         *)
+(* as found: EvRemoveSync answered true from both branches after the wait     *)
+ListCode(fix, fn, sc, lst) ==
+  LET isAdd == fn = "AddSync"
+      after == ListAfter(isAdd, sc, lst)
+  IN IF sc.disposed THEN "false"
+     ELSE IF ~sc.queued THEN (IF ListAccepted(isAdd, sc, lst) THEN "true" ELSE "false")
+     ELSE IF ~isAdd /\ ~fix THEN "true"
+     ELSE IF ListHolds(isAdd, after) THEN "true" ELSE "false"
+
+(* the property, on what the machine shows after the call (`after`: the       *)
+(* activity of every member read from the real machine):                      *)
+(* true <=> the list is in the asked state (all active / none active).        *)
+(* Without relations between the members that is the same as "the mutation    *)
+(* went through": a refused mutation leaves a member its handler was called   *)
+(* for in the opposite state, an accepted one leaves none.  Nothing is        *)
+(* possible on a disposed machine.                                            *)
+ListLaw(fn, sc, after, ret) ==
+  /\ ret \in {"true", "false"}
+  /\ IF sc.disposed THEN ret = "false"
+     ELSE ret = (IF ListHolds(fn = "AddSync", after) THEN "true" ELSE "false")
+
 (* WaitForAll / WaitForAny: each return value must be truthful.               *)
 (*   chans: sequence of BOOLEAN (closed?), ctxDone: ctx already cancelled     *)
 WaitLaw(fn, chans, ctxDone, ret) ==
